@@ -51,7 +51,9 @@ impl GLWEBlindRetriever {
         R: GLWEInfos,
         S: GGSWInfos,
     {
-        module.cmux_tmp_bytes(res, res, selector)
+        // `add` and `flush` combine through `cmux_assign_neg`, which takes a GLWE for the difference
+        // before the takes of `cmux`.
+        module.cmux_tmp_bytes(res, res, selector) + GLWE::<Vec<u8>>::bytes_of_from_infos(res)
     }
 
     pub fn retrieve<M, R, A, S, BE: Backend>(
